@@ -264,6 +264,19 @@ Definition check_whole (fmt : Z) (nref total : N) (obs : list sx) : verdict :=
   | _ => VBad
   end.
 
+(* case 16: the stream ends in the middle of a frame (sent < announced <= max) whose checksum
+   field matches the bytes that did arrive: never a packet, always an end-of-stream error; the
+   reader has asked for exactly the announced length and consumed what there was *)
+Definition check_short (fmt : Z) (announced sent : N) (obs : list sx) : verdict :=
+  match obs with
+  | [SInt pn; SInt kind; SInt consumed; SInt wanted; SInt maxcap; SInt _] =>
+      vall [ bounded fmt pn (Z.to_N wanted) (Z.to_N maxcap);
+             check_that (Z.eqb kind 1 || Z.eqb kind 2) (VPropFail 5);
+             check_that (Z.eqb kind (if sent =? fmt_hs fmt then 1 else 2)
+                         && N.eqb (Z.to_N consumed) sent && N.eqb (Z.to_N wanted) announced) (VMismatch 1) ]
+  | _ => VBad
+  end.
+
 Definition check_hostile (fmt cipher : Z) (data : bytes) (chunks : sx) (expect : Z)
            (dec_t unzip_t : sx) (rs : list sx) : verdict :=
   match sx_Ns chunks, sx_table dec_t, sx_otable unzip_t with
@@ -296,6 +309,10 @@ Definition check (c : sx) : verdict :=
       check_damaged fmt cipher frame mode (Z.to_N lo) (Z.to_N hi) obs
   | SList [SList [SInt 12%Z; SInt fmt; SBytes template; SBytes tail; SInt lo; SInt hi]; SList obs] =>
       check_sweep fmt template tail (Z.to_N lo) (Z.to_N hi) obs
+  | SList [SList [SInt 16%Z; SInt fmt; SInt _; SInt announced; SInt sent; SInt _]; SList obs] =>
+      if (Z.eqb fmt 1 || Z.eqb fmt 2 || Z.eqb fmt 3)
+         && (fmt_hs fmt <=? Z.to_N sent) && (Z.to_N sent <? Z.to_N announced) && (Z.to_N announced <=? fmt_max fmt)
+      then check_short fmt (Z.to_N announced) (Z.to_N sent) obs else VBad
   | SList [SList [SInt 15%Z; SInt fmt; SInt nref; SInt total; SInt _; SInt _]; SList obs] =>
       if (Z.eqb fmt 1 || Z.eqb fmt 2) && (fmt_hs fmt + (if Z.eqb fmt 2 then 4 * Z.to_N nref else 0) <=? Z.to_N total)
       then check_whole fmt (Z.to_N nref) (Z.to_N total) obs else VBad
